@@ -13,3 +13,19 @@ Theorem C19_driver_stop_test :
   loess_loop_defs = ["baseline_old = baseline"; "calc_difference = relative_difference(baseline_old, baseline)"; "tol_history[i] = calc_difference"].
 Proof. exact driver_stop_test. Qed.
 Print Assumptions C19_driver_stop_test.
+
+(* every branch test and every assignment inside the iteration, as the model's `drive` has them: the strategy dispatch is
+   `conserve_memory` / `i == 0` only (no size threshold), `kernels` is bound once by _loess_first_loop and passed on
+   unchanged (no cast, copy or truncation of the cache), y / sqrt_w are updated only by the two documented rules *)
+Theorem C19_driver_loop_skeleton :
+  loess_loop_tests = ["conserve_memory"; "calc_difference < tol"; "use_threshold"; "i == 0"; "use_original"] /\
+  loess_loop_assignments =
+  ["baseline_old = baseline"; "calc_difference = relative_difference(baseline_old, baseline)"; "tol_history[i] = calc_difference";
+   "baseline = _loess_low_memory(x, y, sqrt_w, coefs, vandermonde, self._size, windows, fits)";
+   "y = np.minimum(y0 if use_original else y, baseline + num_std * np.std(y - baseline))";
+   "residual = y - baseline";
+   "sqrt_w = _tukey_square(residual / _median_absolute_value(residual), scale, symmetric_weights)";
+   "kernels, baseline = _loess_first_loop(x, y, sqrt_w, coefs, vandermonde, total_points, self._size, windows, fits)";
+   "baseline = _loess_nonfirst_loops(y, sqrt_w, coefs, vandermonde, kernels, windows, self._size, fits)"].
+Proof. exact driver_loop_skeleton. Qed.
+Print Assumptions C19_driver_loop_skeleton.
